@@ -26,6 +26,9 @@ def highlevel(ctx, model, cov):
     rng.shuffle(plan)
     plan = plan[: ctx.pick(40, 105)]
 
+    forms = {"32bit": ["32bit", "32", 32], "24bit": ["24bit", 24, "24"], "8bit": ["8bit", 8, "256", "8", 256],
+             "8bit_diacritic": ["8bit_diacritic", "8d"], "16bit": ["16bit", 16, "16d", "16", "16bit_diacritic"]}
+
     def child():
         common.scrub_process_env()
         os.environ["HOME"] = work
@@ -49,14 +52,33 @@ def highlevel(ctx, model, cov):
             mode = k % 3
             per_call = (mode == 1)
             other_sp = [x for x in ("8bit", "32bit", "16bit") if x != sp][k % 2]
-            t = tupimage.TupimageTerminal(out_command=out, out_display=common.RecStream(), in_response=tty_in, id_database=db, config="DEFAULT",
-                                          id_space=(sp if mode == 0 else other_sp), id_subspace=(sub if mode == 0 else "200:210"),
-                                          max_ids_per_subspace=mx, upload_method="direct", redetect_terminal=False)
-            kw = {"id_space": sp, "id_subspace": sub} if per_call else {}
+            # the space is requested in one of the spellings the library documents for it (names, short names, bare
+            # integers); a layer that refuses a spelling (ValueError) is given the canonical name instead — but a spelling
+            # that IS accepted must mean the same space in every layer
+            form = forms[sp][(k // 3) % len(forms[sp])]
+            spelled = form
+
+            def mk(space_arg):
+                return tupimage.TupimageTerminal(out_command=out, out_display=common.RecStream(), in_response=tty_in, id_database=db, config="DEFAULT",
+                                                 id_space=space_arg, id_subspace=(sub if mode == 0 else "200:210"),
+                                                 max_ids_per_subspace=mx, upload_method="direct", redetect_terminal=False)
+            if mode == 0:
+                try:
+                    t = mk(form)
+                except ValueError:
+                    spelled = sp
+                    t = mk(sp)
+            else:
+                t = mk(other_sp)
+            kw = {"id_space": form, "id_subspace": sub} if per_call else {}
             if mode == 2:
                 t.assign_id(imgs[0], cols=1, rows=1)
                 t.get_id_space(); t.get_subspace()
-                t.id_space = sp
+                try:
+                    t.id_space = form
+                except ValueError:
+                    spelled = sp
+                    t.id_space = sp
                 t.id_subspace = sub
             ids = []
             for j in range(9):
@@ -71,7 +93,7 @@ def highlevel(ctx, model, cov):
                     inst.id = ph.image_id
                 sent = b"".join(out.writes[n_before:])
                 ids.append([inst.id, sent[:120].hex()])
-            res.append([sp, sub, mx, ids])
+            res.append([sp, sub, mx, ids, repr(spelled), mode])
             os.remove(db)
         return res
 
@@ -81,17 +103,20 @@ def highlevel(ctx, model, cov):
         return
     names = {"8bit": "8 0", "8bit_diacritic": "0 1", "16bit": "8 1", "24bit": "24 0", "32bit": "24 1"}
     reqs, meta = [], []
-    for sp, sub, mx, ids in r["ok"]:
+    for sp, sub, mx, ids, spelled, mode in r["ok"]:
         b, e = sub.split(":")
         idlist = [i for i, _ in ids]
         reqs.append(f"c10.spec_in_sub_many {names[sp]} {b} {e} " + ",".join(str(i) for i in idlist))
-        meta.append((sp, sub, mx, ids))
-    for (sp, sub, mx, ids), bits in zip(meta, model.batch(reqs)):
+        meta.append((sp, sub, mx, ids, spelled, mode))
+    for (sp, sub, mx, ids, spelled, mode), bits in zip(meta, model.batch(reqs)):
+        how = ["configured", "per call", "assigned on the live object"][mode]
+        cov.bump(f"highlevel/spelling/{'int' if spelled.isdigit() else 'short' if spelled.strip(chr(39)) != sp else 'name'}/{how}")
         for (i, sent), bit in zip(ids, bits):
             cov.add({"path": "TupimageTerminal", "space": sp, "subspace": sub, "max_ids": mx, "id": i}, klass=f"highlevel/{sp}")
             if bit != "1":
                 ctx.violations.append({"signature": {"class": "id-outside-requested-subspace", "path": "high-level"},
-                                       "what": f"TupimageTerminal handed out id {i} for space {sp} subspace {sub}", "case": {"kind": "highlevel", "space": sp, "sub": sub, "max_ids": mx, "id": i}})
+                                       "what": f"TupimageTerminal handed out id {i} for space {sp} (requested as {spelled}, {how}) subspace {sub}",
+                                       "case": {"kind": "highlevel", "space": sp, "sub": sub, "max_ids": mx, "id": i, "spelled": spelled, "how": how}})
             if sent:
                 key = f"i={i}".encode()
                 raw = bytes.fromhex(sent)
